@@ -1,6 +1,8 @@
 import Ptn.C06.Core
 import Ptn.Common.AnalysisLocal
 import Ptn.C06.Structure
+import Ptn.C06.Value
+import Ptn.C06.Demo
 /-! Property theorems for C06, part 2 (Mathlib): the combinatorial theorems are in `Core.lean`
 (core Lean only, same namespace); here the linear-algebra consequences. -/
 namespace Ptn.C06
@@ -55,5 +57,111 @@ theorem saturated_local_flow_is_full {n : Type} [Fintype n] [DecidableEq n]
   calc E * (Eᴴ * H * E) * Eᴴ = (E * Eᴴ) * H * (E * Eᴴ) := by
         simp only [Matrix.mul_assoc]
     _ = H := by rw [hE']; simp
+
+/-! ### Value level: the embedding is an isometry BECAUSE the state is canonical at the updated site
+
+`Ptn/Common/EinsumIso.lean`: the norm network seen from the centre is a tree of doubled sub-trees
+(`Ptn.Ein.Sub` / `Kids`: any number of children, any depth, any number of open legs).  `Kids.Canon dim k`:
+every non-centre node reads only its own legs and satisfies the isometry condition TOWARD THE CENTRE in
+index form, `Σ_{all legs of n except the one toward the centre} T_n · Tc_n = δ` (which neighbour that is for
+`canonical_form`: `Ptn.C03.canon_gauge_tree` — the first node on the path to the centre).  The theorems hold
+for every tree, all dimensions, every commutative semiring. -/
+
+section value
+open Ptn.Ein
+open scoped Kronecker
+
+variable {L : Type} [DecidableEq L]
+
+/-- **The contracted environment of the centre is the identity**: summing the product of all tensors and
+conjugated tensors of all non-centre nodes over every pair of open legs and every bond not at the centre
+gives `Π_k δ(x_k, y_k)` over the centre's bonds. -/
+theorem environment_is_identity {R : Type} [CommSemiring R] (dim : L → Nat) (k : Kids L R)
+    (hc : k.Canon dim) (hnd : k.labels.Nodup) (σ : Asg L)
+    (hr : ∀ p ∈ k.ups, σ p.1 < dim p.1 ∧ σ p.2 < dim p.2) :
+    netValue dim k.inBinds k.leaves σ = deltaProd k.ups σ :=
+  Ptn.Ein.environment_is_identity dim k hc hnd σ hr
+
+/-- **The embedding of the centre tensor is an isometry (index form)**: `Σ_phys Ec[phys; r] · E[phys; c] = δ_rc`,
+`E` the ket half of the environment (all ket tensors of the non-centre nodes contracted over their own
+bonds), `Ec` the bra half. -/
+theorem embedding_isometry_of_canonical {R : Type} [CommSemiring R] (dim : L → Nat) (k : Kids L R)
+    (hc : k.Canon dim) (hnd : k.labels.Nodup) (σ : Asg L)
+    (hr : ∀ p ∈ k.ups, σ p.1 < dim p.1 ∧ σ p.2 < dim p.2) :
+    sumPairs dim k.physAll (fun τ => k.E dim τ * k.Ec dim τ) σ = deltaProd k.ups σ :=
+  Ptn.Ein.embedding_isometry_of_canonical dim k hc hnd σ hr
+
+/-- the same as a matrix identity over the index tuples: `Ecᵀ · E = 1` -/
+theorem embedding_matrix_isometry {R : Type} [CommSemiring R] (dim : L → Nat) (k : Kids L R)
+    (hc : k.Canon dim) (hnd : k.labels.Nodup) :
+    (envMatrixC dim k).transpose * envMatrix dim k = 1 :=
+  Ptn.Ein.embedding_matrix_isometry dim k hc hnd
+
+/-- **The norm computed from the centre tensor alone equals the full norm** (value of the norm network). -/
+theorem centre_norm_eq_full_norm_value {R : Type} [CommSemiring R] (dim : L → Nat) (c : Centre L R)
+    (hc : c.Canon dim) (hnd : c.labels.Nodup) (σ : Asg L) :
+    netValue dim c.normBinds c.normLeaves σ = netValue dim (c.phys ++ c.kids.pairs) [c.C, c.Cc] σ :=
+  Ptn.Ein.centre_norm_eq_full_norm_value dim c hc hnd σ
+
+/-- the premises are satisfiable: the demo tree `centre — B — A`, `centre — A2` (bond dimension 4 between the
+centre and `B`, permutation-like isometries, bra copy = conjugated ket with labels `l + 10`) -/
+example : Demo.kids.Canon Demo.dim ∧ Demo.kids.labels.Nodup ∧ Demo.kids.IsConj Demo.pr ∧
+    Function.Injective Demo.pr ∧ (∀ l, Demo.dim (Demo.pr l) = Demo.dim l) ∧
+    Demo.centre.Canon Demo.dim ∧ Demo.centre.labels.Nodup ∧ Demo.kids.ups = [(4, 14), (2, 12)] :=
+  ⟨Demo.kids_canon, Demo.kids_nodup, Demo.kids_isConj, Demo.pr_inj, Demo.dim_pr, Demo.centre_canon,
+    Demo.centre_nodup, rfl⟩
+
+/-- in-range assignments of the centre's bonds exist -/
+example : ∀ p ∈ Demo.kids.ups, (fun l => if l = 4 ∨ l = 14 then 3 else 1 : Asg Nat) p.1 < Demo.dim p.1 ∧
+    (fun l => if l = 4 ∨ l = 14 then 3 else 1 : Asg Nat) p.2 < Demo.dim p.2 := by
+  intro p hp
+  simp only [Demo.kids, Kids.ups, Demo.subB, Demo.subA2, Sub.u, Sub.u', List.mem_cons, List.not_mem_nil,
+    or_false] at hp
+  rcases hp with rfl | rfl <;> decide
+
+/-- **One-site update, state canonical at the updated site: the norm is conserved.**  `k`: the sub-trees
+around the updated node, every node canonical toward it, the bra tensors the conjugated relabelled ket
+tensors (`IsConj`); `P`: the open legs of the updated node; the embedding
+`E = envMatrix ⊗ 1_P` is BUILT from the network (no isometry hypothesis); `H` any Hermitian matrix on
+the full space.  The local update `φ ↦ exp(-i t EᴴHE) φ` conserves the norm of the represented state `Eφ`. -/
+theorem one_site_update_conserves_norm_of_canonical (dim : L → Nat) (pr : L → L)
+    (hinj : Function.Injective pr) (hdim : ∀ l, dim (pr l) = dim l) (k : Kids L ℂ)
+    (hc : k.Canon dim) (hnd : k.labels.Nodup) (hk : k.IsConj pr)
+    (P : Type) [Fintype P] [DecidableEq P]
+    (H : Matrix (Idx dim k.physAll × P) (Idx dim k.physAll × P) ℂ) (hH : H.conjTranspose = H)
+    (t : ℝ) (φ : Idx dim k.ups × P → ℂ) :
+    let E := siteEmbedding dim k P
+    star (E.mulVec ((NormedSpace.exp ((-Complex.I * (t : ℂ)) • (E.conjTranspose * H * E))).mulVec φ)) ⬝ᵥ
+        (E.mulVec ((NormedSpace.exp ((-Complex.I * (t : ℂ)) • (E.conjTranspose * H * E))).mulVec φ))
+      = star (E.mulVec φ) ⬝ᵥ (E.mulVec φ) :=
+  local_update_conserves_norm _ H
+    (siteEmbedding_isometry dim k hc hnd (envMatrixC_eq_conj dim pr hinj hdim k hc hnd hk) P) hH t φ
+
+/-- the energy (no canonical form needed — stated for the same embedding for completeness) -/
+theorem one_site_update_conserves_energy_of_canonical (dim : L → Nat) (k : Kids L ℂ)
+    (P : Type) [Fintype P] [DecidableEq P]
+    (H : Matrix (Idx dim k.physAll × P) (Idx dim k.physAll × P) ℂ) (hH : H.conjTranspose = H)
+    (t : ℝ) (φ : Idx dim k.ups × P → ℂ) :
+    let E := siteEmbedding dim k P
+    star (E.mulVec ((NormedSpace.exp ((-Complex.I * (t : ℂ)) • (E.conjTranspose * H * E))).mulVec φ)) ⬝ᵥ
+        (H.mulVec (E.mulVec ((NormedSpace.exp ((-Complex.I * (t : ℂ)) • (E.conjTranspose * H * E))).mulVec φ)))
+      = star (E.mulVec φ) ⬝ᵥ (H.mulVec (E.mulVec φ)) :=
+  local_update_conserves_energy _ H hH t φ
+
+/-- **Canonical form: the norm of the represented state is the norm of the centre tensor** (matrix form). -/
+theorem centre_norm_eq_full_norm_of_canonical (dim : L → Nat) (pr : L → L)
+    (hinj : Function.Injective pr) (hdim : ∀ l, dim (pr l) = dim l) (k : Kids L ℂ)
+    (hc : k.Canon dim) (hnd : k.labels.Nodup) (hk : k.IsConj pr)
+    (P : Type) [Fintype P] [DecidableEq P] (φ : Idx dim k.ups × P → ℂ) :
+    star ((siteEmbedding dim k P).mulVec φ) ⬝ᵥ ((siteEmbedding dim k P).mulVec φ) = star φ ⬝ᵥ φ :=
+  Ptn.Analysis.isometry_norm _
+    (siteEmbedding_isometry dim k hc hnd (envMatrixC_eq_conj dim pr hinj hdim k hc hnd hk) P) φ
+
+/-- a Hermitian matrix on the full space of the demo network (open legs of A, B, A2 and one open leg of
+dimension 3 at the centre) -/
+example : ((1 : Matrix (Idx Demo.dim Demo.kids.physAll × Fin 3) (Idx Demo.dim Demo.kids.physAll × Fin 3) ℂ)).conjTranspose
+    = 1 := Matrix.conjTranspose_one
+
+end value
 
 end Ptn.C06
